@@ -12,9 +12,12 @@ EXTENDS Naturals, Sequences, FiniteSets, TLC
 CONSTANTS MaxAssertions, MaxFaults
 
 RootOK == [version |-> "ok", dest |-> "ok", issuer |-> "ok", status |-> "ok"]
-AsOK   == [issuer |-> "ok", subject |-> "ok", conf |-> "ok", method |-> "ok", data |-> "ok", recipient |-> "ok", noa |-> "ok", authn |-> "ok"]
+AsOK   == [issuer |-> "ok", subject |-> "ok", conf |-> "ok", method |-> "ok", data |-> "ok", recipient |-> "ok", noa |-> "ok", authn |-> "ok", advice |-> "ok"]
 \* "near" is a near miss of the expected URL (query string, fragment, userinfo, host case, trailing slash);
-\* authn = "absent" (no AuthnStatement) is a legal variation, not a fault
+\* authn = "absent" (no AuthnStatement) is a legal variation, not a fault; advice = "nested": the IdP placed an
+\* individually signed evidence assertion into the assertion's Advice before signing -- ignored when the Response is
+\* signed or signatures are not checked, and fatal (an assertion that is not a child of the Response) when the
+\* assertions are verified one by one
 
 \* catalogue: <<where, field, value>>; where = 0 for the root, i for assertion i
 RootFaults == { <<0, "version", "absent">>, <<0, "version", "wrong">>,
@@ -25,7 +28,7 @@ RootFaults == { <<0, "version", "absent">>, <<0, "version", "wrong">>,
                 <<0, "status", "nestfail">>, <<0, "status", "nestok">> }
 AsFaults(n) == { <<i, f[1], f[2]>> : i \in 1..n,
                  f \in { <<"issuer", "absent">>, <<"issuer", "other">>, <<"subject", "absent">>, <<"conf", "absent">>,
-                         <<"method", "other">>, <<"data", "absent">>, <<"recipient", "absent">>, <<"recipient", "other">>, <<"recipient", "near">>, <<"authn", "absent">>,
+                         <<"method", "other">>, <<"data", "absent">>, <<"recipient", "absent">>, <<"recipient", "other">>, <<"recipient", "near">>, <<"authn", "absent">>, <<"advice", "nested">>,
                          <<"noa", "absent">>, <<"noa", "malformed">>, <<"noa", "past">> } }
 
 Subsets(S, k) == {{}} \cup (IF k >= 1 THEN { {a} : a \in S } ELSE {})
@@ -81,7 +84,11 @@ FirstAsErr(cfg, as, i) ==
    IF i > Len(as) THEN NoErr
    ELSE LET e == AsCheck(cfg, as[i]) IN IF e.cls # "none" THEN e ELSE FirstAsErr(cfg, as, i + 1)
 
+\* the per-assertion signature walk (decode_response.go:352-393) meets the evidence assertion before any profile check
+Blocked(in) == in.sigmode = "assert" /\ \E i \in DOMAIN in.doc.as : in.doc.as[i].advice = "nested"
+Other == [cls |-> "other", type |-> "none", name |-> "none"]
 ModelErr(cfg, in) ==
+   IF Blocked(in) THEN Other ELSE
    LET e == RootCheck(cfg, in.doc.root, Len(in.doc.as)) IN
    IF e.cls # "none" THEN e ELSE FirstAsErr(cfg, in.doc.as, 1)
 
@@ -125,12 +132,15 @@ C03_OK(cfg, in, o) ==
    LET F == Viol(cfg, in) IN
    /\ (o.res = "accept") => F = {}
    /\ (F # {}) => /\ o.res = "reject" /\ o.info.res = "reject"
-                  /\ \E v \in F : Matches(o.err, v)
-                  /\ \E v \in F : Matches(o.info.err, v)      \* unwrapped from the verification error
+                  \* (a document refused at the signature stage cannot name a profile fault)
+                  /\ ~Blocked(in) => \E v \in F : Matches(o.err, v)
+                  /\ ~Blocked(in) => \E v \in F : Matches(o.info.err, v)      \* unwrapped from the verification error
    /\ (o.info.res = "accept") => o.res = "accept"
 
 C09_OK(cfg, in, o) == o.res \in {"accept", "reject"} /\ o.info.res \in {"accept", "reject"}
 
-ObsErrIs(e, m) == IF m.cls = "none" THEN e.cls = "none" ELSE (e.cls = "typed" /\ e.type = m.type /\ m.name \in Names(e))
+ObsErrIs(e, m) == IF m.cls = "none" THEN e.cls = "none"
+                  ELSE IF m.cls = "other" THEN e.cls = "other"
+                  ELSE (e.cls = "typed" /\ e.type = m.type /\ m.name \in Names(e))
 Conforms(m, o) == o.res = m.res /\ ObsErrIs(o.err, m.err)
 =============================================================================
